@@ -29,6 +29,8 @@ func checkC13(p *Prog, r *Report) {
 	rMal := r.Rule("malformed-refused", "a verifier-construction error blocks the request; the closure exists only for a 32-byte standard-base64 value")
 	rAcc := r.Rule("accept-edge", "the verifier returns nil only on full-length equality of the pin with the SPKI hash of a presented certificate")
 
+	checkC13Fallback(p, r, r.Rule("compiled-in-pin-kept", "in the command-line wrapper the fingerprint chosen is never empty when one is compiled in: the compiled-in value is the last resort of every alternative which can be empty"))
+
 	goFn := p.Func(sshPkg, "", "Go")
 	vf := p.Func(sshPkg, "", "TLSFingerprintVerifier")
 	if nil == goFn || nil == vf {
@@ -764,4 +766,161 @@ func sameShape(a, b ssa.Value) bool {
 		return ok && calleeName(x.Common()) == calleeName(y.Common())
 	}
 	return false
+}
+
+// checkC13Fallback: the wrapper's choice of fingerprint (flag, environment,
+// compiled-in value).  Every string a function of the wrapper returns, or
+// hands to the library as the fingerprint, which can be the compiled-in
+// variable at all must not be empty when that variable is not: an empty
+// fingerprint means no pinning.
+func checkC13Fallback(p *Prog, r *Report, ru *Rule) {
+	var g *ssa.Global
+	for _, pk := range p.SSA.AllPackages() {
+		if strings.HasSuffix(pk.Pkg.Path(), "/"+sshPkg+"/cmd/simpleshell") {
+			g, _ = pk.Members["Fingerprint"].(*ssa.Global)
+		}
+	}
+	if nil == g {
+		ru.Unproven("cmd/simpleshell.Fingerprint", token.NoPos, "the compiled-in fingerprint variable was not found")
+		return
+	}
+	isDefault := func(v ssa.Value) bool {
+		u, ok := stripConv(v, true).(*ssa.UnOp)
+		return ok && token.MUL == u.Op && u.X == ssa.Value(g)
+	}
+	/* Is v known to be non-empty at `at` because a test of it says so? */
+	guarded := func(fn *ssa.Function, v ssa.Value, at ssa.Instruction) bool {
+		for _, b := range fn.Blocks {
+			ifi := blockIf(b)
+			if nil == ifi {
+				continue
+			}
+			dc := decodeCond(ifi.Cond)
+			if nil == dc.Y {
+				continue
+			}
+			x, y := dc.X, dc.Y
+			if s, isC := constString(x); isC && "" == s {
+				x, y = y, x
+			}
+			if s, isC := constString(y); !isC || "" != s || x != v {
+				continue
+			}
+			nonEmpty := 1
+			if !dc.Eq {
+				nonEmpty = 0
+			}
+			if edgeDominates(ifi, nonEmpty, at) {
+				return true
+			}
+		}
+		return false
+	}
+	var mayEmpty func(fn *ssa.Function, v ssa.Value, at ssa.Instruction, depth int) (bool, bool)
+	/* Returns (may be empty, mentions the compiled-in value). */
+	mayEmpty = func(fn *ssa.Function, v ssa.Value, at ssa.Instruction, depth int) (bool, bool) {
+		v = stripConv(resolveCell(v), true)
+		if depth > 8 {
+			return true, false
+		}
+		if isDefault(v) {
+			return false, true
+		}
+		if s, ok := constString(v); ok {
+			return "" == s, false
+		}
+		if guarded(fn, v, at) {
+			return false, false
+		}
+		switch x := v.(type) {
+		case *ssa.Phi:
+			any, def := false, false
+			for k, e := range x.Edges {
+				pred := x.Block().Preds[k]
+				m, d := mayEmpty(fn, e, pred.Instrs[len(pred.Instrs)-1], depth+1)
+				any = any || m
+				def = def || d
+			}
+			return any, def
+		case *ssa.Call:
+			if n := calleeName(x.Common()); "cmp.Or" == n || strings.HasPrefix(n, "cmp.Or[") {
+				all, def := true, false
+				for _, a := range append(variadicElems(x.Common()), callArgs(x.Common())...) {
+					if _, isSl := a.Type().Underlying().(*types.Slice); isSl {
+						continue
+					}
+					m, d := mayEmpty(fn, a, x, depth+1)
+					all = all && m
+					def = def || d
+				}
+				return all, def
+			}
+		}
+		return true, false
+	}
+	n := 0
+	for _, fn := range p.Funcs() {
+		if nil == fn.Pkg || fn.Pkg != g.Pkg {
+			continue
+		}
+		/* Result positions at which some return hands out the compiled-in
+		value: every return's value at that position is an alternative
+		to it. */
+		defPos := map[int]bool{}
+		eachInstr(fn, func(i ssa.Instruction) {
+			if x, ok := i.(*ssa.Return); ok {
+				for k, rv := range x.Results {
+					if _, d := mayEmpty(fn, rv, i, 0); d {
+						defPos[k] = true
+					}
+				}
+			}
+		})
+		eachInstr(fn, func(i ssa.Instruction) {
+			var sinks []ssa.Value
+			what := ""
+			switch x := i.(type) {
+			case *ssa.Return:
+				for k, rv := range x.Results {
+					if !defPos[k] {
+						continue
+					}
+					m, _ := mayEmpty(fn, rv, i, 0)
+					n++
+					c := fmt.Sprintf("%s:returned#%d", fnName(fn), n)
+					if m {
+						ru.Bad(c, posOf(i), "the fingerprint returned can be empty although one is compiled in (an alternative which may be empty — an environment variable set to nothing, say — is taken without falling back on the compiled-in value): the connection is then made without pinning")
+					} else {
+						ru.OK(c, posOf(i), "not empty when a fingerprint is compiled in")
+					}
+				}
+				return
+			case *ssa.Call:
+				if sc := x.Common().StaticCallee(); nil != sc && nil != sc.Pkg && strings.HasSuffix(sc.Pkg.Pkg.Path(), "/"+sshPkg) {
+					for k, pa := range sc.Params {
+						if strings.Contains(strings.ToLower(pa.Name()), "fingerprint") && k < len(x.Common().Args) {
+							sinks = append(sinks, x.Common().Args[k])
+						}
+					}
+					what = "handed to " + sc.Name()
+				}
+			}
+			for _, v := range sinks {
+				m, d := mayEmpty(fn, v, i, 0)
+				if !d {
+					continue
+				}
+				n++
+				c := fmt.Sprintf("%s:%s#%d", fnName(fn), strings.Fields(what)[0], n)
+				if m {
+					ru.Bad(c, posOf(i), "the fingerprint %s can be empty although one is compiled in (an alternative which may be empty — an environment variable set to nothing, say — is taken without falling back on the compiled-in value): the connection is then made without pinning", what)
+				} else {
+					ru.OK(c, posOf(i), "empty alternatives fall back on the compiled-in fingerprint")
+				}
+			}
+		})
+	}
+	if 0 == n {
+		ru.Unproven("cmd/simpleshell:fingerprint-choice", token.NoPos, "no place found where the compiled-in fingerprint is chosen among alternatives")
+	}
 }
